@@ -274,7 +274,7 @@ def run(tier, replay=None):
            "samples": [{"id": s["id"], "meta": s["meta"]} for s in (oscen[:2] + mscen[:1])],
            "rule": "one evaluation = one scenario: a prefix of a TLC-generated behaviour (reaching a session state of Outstation.tla / "
                    "Master.tla), one hostile stimulus class of Hostile.tla with seeded bytes and chunking, then the probe (link status request, "
-                   "fresh READ / user request and its answer, on the same or - after a close - a new connection); decode level, link error mode "
+                   "fresh READ / user request and its answer, on the same or - after a close - a new connection); decode level, outstation receive buffer size (249, 292, 500, 1024, 2048), link error mode "
                    "cycled; distinct = distinct stimulus byte strings",
            "stimulus_classes_enumerated": {k: len(v) for k, v in stimuli.items()}, "stimulus_kinds_executed": dict(kinds),
            "prefix_behaviours": {"outstation": len(oabs), "master": len(mabs)}, "abstract_transition_cover_pairs": cov_pairs,
